@@ -109,11 +109,11 @@ impl Prop for SeqExact {
         match (tier, build) {
             (Tier::Thorough, "asan") if self.is_prefetch() => 8_000,
             (Tier::Quick, _) if self.is_prefetch() => 4_000,
-            (Tier::Thorough, _) if self.is_prefetch() => 80_000,
+            (Tier::Thorough, _) if self.is_prefetch() => 40_000,
             (Tier::Quick, "fast") => 30_000,
             (Tier::Quick, _) => 15_000,
-            (Tier::Thorough, "fast") => 600_000,
-            (Tier::Thorough, _) => 300_000,
+            (Tier::Thorough, "fast") => 240_000,
+            (Tier::Thorough, _) => 60_000,
         }
     }
     fn builds(&self, _tier: Tier) -> Vec<&'static str> {
